@@ -126,6 +126,29 @@ def run(ctx) -> None:
                 lon[b] = 45.0  # outside the box after an over-long hop
                 lat[b + 2] = None
         loc_case(ctx, lon, lat, list(BOX), 5000.0, "huge", "regular")
+    # single-precision fixes a hair (one float32 ulp and less) inside / outside box edges that float32 cannot represent:
+    # "strictly outside" is decided on the values as given, however close to the edge
+    for _ in range(ctx.pick(60, 400)):
+        box = (-80.1 + rng.choice([0, 0.3]), 40.1, -70.1 + rng.choice([0, 1e-7, 0.2]), 59.9 + rng.choice([0, 1e-6]))
+        cx, cy = np.float32(-75.0), np.float32(50.0)
+        cand = []
+        for e, axis in ((box[0], 0), (box[2], 0), (box[1], 1), (box[3], 1)):
+            f = np.float32(e)
+            for v in (f, np.nextafter(f, np.float32(-1e9)), np.nextafter(f, np.float32(1e9))):
+                cand.append((v, cy) if axis == 0 else (cx, v))
+        pts = [rng.choice(cand) for _ in range(rng.choice([1, 3, 6, 12]))] + [(cx, cy)]
+        rng.shuffle(pts)
+        lon32 = np.array([p[0] for p in pts], dtype=np.float32)
+        lat32 = np.array([p[1] for p in pts], dtype=np.float32)
+        for prec, lo_, la_ in (("float32", lon32, lat32), ("float64", lon32.astype(np.float64), lat32.astype(np.float64))):
+            llon, llat = [float(v) for v in lo_], [float(v) for v in la_]
+            kw = {"lon": lo_, "lat": la_, "bbox": list(box) if rng.random() < 0.5 else box}
+            o, _ = client.expect(ctx, "C14", "qartod.location_test", kw, lambda: models.location(llon, llat, box, None),
+                                 logical={"lon": llon, "lat": llat, "bbox": list(box), "carrier": prec,
+                                          "note": "fixes within a float32 ulp of a box edge"}, hist="location")
+            ctx.count("location.calls")
+            ctx.count("location.hairline_edge_calls")
+            ctx.case(f"hairline-edge|{prec}|{gen.flagset(o)}")
     # history: the same coordinate values with and without some fixes masked, one call right after the other
     for _ in range(ctx.pick(150, 1000)):
         n = rng.choice([3, 4, 5, 8])
